@@ -1,6 +1,7 @@
 import PasetoModel.Base64Lit
 import PasetoModel.FfiLemmas
 import PasetoModel.Extracted.Ffi
+import PasetoModel.Extracted.Source
 import PasetoModel.PaserkInst
 import PasetoModel.Forms
 import PasetoModel.Props.C01
@@ -226,6 +227,22 @@ theorem seal_no_panic_from_nonce (b : Backend) (hb : b ∈ Backend.all) (k draw 
   split
   · simp
   · rw [splitFirst_append _ _ _ hn]; simp
+
+/-! ## the one `unsafe` operation outside the aws-lc wrappers: `str::from_utf8_unchecked` in `base64::write_to_fmt` -/
+
+/-- in the current source, the only calls made inside `unsafe` blocks outside `lc/` are the two
+    `from_utf8_unchecked` calls of `base64.rs` (`tools/srcscan.py`, regenerated on every run) -/
+theorem unsafe_calls_outside_ffi :
+    Extracted.Source.unsafeCalls = [("paseto-core/src/base64.rs", "from_utf8_unchecked"),
+                                    ("paseto-core/src/base64.rs", "from_utf8_unchecked")] := by decide
+
+/-- their safety obligation: every byte the encoder produces (the 4-byte groups and the final partial group handed
+    to `from_utf8_unchecked`) is an alphabet character, hence below 128 — a complete one-byte UTF-8 sequence -/
+theorem write_to_fmt_utf8_safe (bs : Bytes) : ∀ ch ∈ encode bs, ch.toNat < 128 := by
+  intro ch h
+  have hm := encode_mem bs ch h
+  have : ∀ c ∈ alphabet, c.toNat < 128 := by decide
+  exact this ch hm
 
 /-! ## the FFI wrappers -/
 
